@@ -214,5 +214,23 @@ def generate (s : σ) : Except Panic (Result × σ) :=
     .ok ({ bytes := protoBytes ++ frameBytes ++ body, instrs := instrs, target := target,
            framed := useFrame, sim := simF, bodyLen := g.out.length }, s)
 
+/-! ### configuration builders (`src/generator/mod.rs`) -/
+
+def f64IsNaN (b : UInt64) : Bool := (b.toNat / 2 ^ 52) % 2048 == 2047 && b.toNat % 2 ^ 52 != 0
+
+/-- `rate.clamp(0.0, 1.0)` on bit patterns: NaN stays NaN, `-0.0` stays `-0.0` -/
+def clampRate (b : UInt64) : UInt64 :=
+  if f64IsNaN b then b
+  else if b.toNat ≥ 2 ^ 63 then (if b.toNat = 2 ^ 63 then b else 0)          -- negative → 0.0
+  else if b.toNat > 0x3FF0000000000000 then 0x3FF0000000000000                  -- > 1.0 → 1.0
+  else b
+
+/-- the mutator objects `MutatorKind::create(unsafe)` builds, for a bit mask over
+[bitflip, boundary, offbyone, stringlen, character, memoindex, typeconfusion] -/
+def mutsOfMask (mask : Nat) (unsafeMode : Bool) : List Mut :=
+  let all : List Mut := [.bitflip, .boundary, .offbyone, .stringlen, .character,
+                         .memoindex unsafeMode, .typeconfusion unsafeMode]
+  (all.zipIdx.filter (fun (_, i) => (mask >>> i) % 2 == 1)).map (·.1)
+
 end G
 end PFV
